@@ -14,6 +14,15 @@
 (* connect to a dead master, CLUSTERDOWN, host add) and asks for a refresh *)
 (* BEFORE the stale reply is installed.  That request must survive the     *)
 (* installation of the older reply (TriggerKept).                          *)
+(* The layout has two components: which master owns the slots, and which   *)
+(* replicas follow that master.  Reads are routed by the replica list too  *)
+(* when the read strategy is REPLICA or BOTH, so a change of the replica   *)
+(* assignment alone ("replica moves, master stays") makes the table stale  *)
+(* for them, and the refresh has to install it.                            *)
+(*   SkipUnchanged  - a refresh leaves the entry of a slot alone when its  *)
+(*                    master is unchanged (the old replica list stays):    *)
+(*                    FALSE in the code; TRUE must violate BoundedRounds / *)
+(*                    TriggerKept / Converges under REPLICA and BOTH       *)
 (*   DrainOnSuccess - a successful refresh empties the trigger channel     *)
 (*                    ("the fresh table satisfies whoever asked            *)
 (*                    meanwhile"): FALSE in the code; TRUE must violate    *)
@@ -23,9 +32,11 @@ EXTENDS Naturals, TLC
 
 CONSTANTS MaxLayout,      \* layouts are numbered 0..MaxLayout; a layout change increments the number
           MaxFailures,    \* refresh attempts that may fail
-          DrainOnSuccess
+          DrainOnSuccess,
+          SkipUnchanged,
+          Strategy        \* read strategy: "MASTER" | "REPLICA" | "BOTH"
 
-VARIABLES layout,         \* current layout of the cluster
+VARIABLES layout,         \* current layout of the cluster: <<master assignment, replica assignment>> (version numbers)
           table,          \* layout the proxy's table reflects
           trig,           \* token in slotsRefreshCh (capacity 1)
           loop,           \* "wait" | "asking" | "sleep" | "exited"
@@ -37,20 +48,27 @@ VARIABLES layout,         \* current layout of the cluster
 
 vars == <<layout, table, trig, loop, seen, quit, rounds, failures, noticed>>
 
+\* what routing depends on: the master assignment, and for reads from replicas the replica assignment
+Same(a, b) == a[1] = b[1] /\ (Strategy = "MASTER" \/ a[2] = b[2])
+Stale == ~Same(table, layout)
+
 Init ==
-  /\ layout = 0 /\ table = 0 /\ trig = FALSE /\ loop = "wait" /\ seen = 0 /\ quit = FALSE
+  /\ layout = <<0, 0>> /\ table = <<0, 0>> /\ trig = FALSE /\ loop = "wait" /\ seen = <<0, 0>> /\ quit = FALSE
   /\ rounds = 0 /\ failures = 0 /\ noticed = FALSE
 
-(* environment: slots move (migration finished, failover) *)
-LayoutChange ==
-  /\ layout < MaxLayout /\ layout' = layout + 1 /\ rounds' = 0 /\ noticed' = FALSE
+(* environment: slots move to another master (migration finished, failover) / a replica moves to another master *)
+(* or is replaced while the master stays                                                                          *)
+LayoutChange(k) ==
+  /\ layout[1] + layout[2] < MaxLayout /\ rounds' = 0 /\ noticed' = FALSE
+  /\ \/ k = "master" /\ layout' = <<layout[1] + 1, layout[2]>>
+     \/ k = "replica" /\ Strategy # "MASTER" /\ layout' = <<layout[1], layout[2] + 1>>
   /\ UNCHANGED <<table, trig, loop, seen, quit, failures>>
 
 (* a request routed by the stale table is redirected (handleRedirection), cannot connect to a master that *)
 (* has left (MakeRequestToHost) or is told CLUSTERDOWN: triggerSlotsRefresh (non-blocking send: a token   *)
 (* that is already there is kept)                                                                          *)
 Redirect ==
-  /\ table # layout /\ ~quit
+  /\ Stale /\ ~quit
   /\ trig' = TRUE /\ noticed' = TRUE
   /\ UNCHANGED <<layout, table, loop, seen, quit, rounds, failures>>
 
@@ -61,10 +79,12 @@ LoopTake ==
      \/ ~quit /\ trig /\ trig' = FALSE /\ loop' = "asking" /\ seen' = layout   \* the node answers with the layout it has now
   /\ UNCHANGED <<layout, table, quit, rounds, failures, noticed>>
 
-(* doSlotsRefresh returns: success -> the table becomes what the node reported; failure -> trigger again *)
+(* doSlotsRefresh returns: success -> the table becomes what the node reported (master and replicas of every slot); *)
+(* failure -> trigger again                                                                                         *)
 LoopRefreshed ==
   /\ loop = "asking"
-  /\ \/ /\ table' = seen /\ rounds' = rounds + 1 /\ UNCHANGED failures
+  /\ \/ /\ table' = IF SkipUnchanged /\ table[1] = seen[1] THEN table ELSE seen
+        /\ rounds' = rounds + 1 /\ UNCHANGED failures
         /\ trig' = IF DrainOnSuccess THEN FALSE ELSE trig
      \/ /\ failures < MaxFailures /\ failures' = failures + 1 /\ trig' = TRUE /\ UNCHANGED <<table, rounds>>
   /\ loop' = "sleep"
@@ -79,25 +99,28 @@ LoopWake ==
 Quit == ~quit /\ quit' = TRUE /\ UNCHANGED <<layout, table, trig, loop, seen, rounds, failures, noticed>>
 
 LoopNext == LoopTake \/ LoopRefreshed \/ LoopWake
-Next == LoopNext \/ LayoutChange \/ Redirect \/ Quit
+Next == LoopNext \/ (\E k \in {"master", "replica"} : LayoutChange(k)) \/ Redirect \/ Quit
 \* traffic keeps coming: while the table is stale some request is redirected
 Spec == Init /\ [][Next]_vars /\ WF_vars(LoopNext) /\ WF_vars(Redirect)
 
 -----------------------------------------------------------------------------
 \* once the layout has settled, the table converges (unless the proxy is told to quit)
-Converges == <>[](table = layout \/ quit)
+Converges == <>[](~Stale \/ quit)
 \* ... within two successful rounds after the last change: one that may have been in flight with the old
 \* layout, and one more
-BoundedRounds == (table # layout) => rounds <= 1
+BoundedRounds == Stale => rounds <= 1
 \* a stale table with traffic never leaves the loop idle for ever without a token (no lost wake-up)
-NoLostTrigger == (table # layout /\ loop = "wait" /\ ~trig /\ ~quit) ~> (trig \/ table = layout \/ quit)
+NoLostTrigger == (Stale /\ loop = "wait" /\ ~trig /\ ~quit) ~> (trig \/ ~Stale \/ quit)
 \* quit ends the loop
 QuitEnds == quit ~> (loop = "exited")
 \* the refresh a request has asked for is never forgotten: while the table is stale and some request has noticed it under
 \* the current layout, a token is waiting or a refresh that has seen the current layout is in flight - so the rounds
 \* triggered by the first redirection end with the current layout, whatever older reply is installed meanwhile
-TriggerKept == (noticed /\ table # layout /\ ~quit) => (trig \/ (loop = "asking" /\ seen = layout))
+TriggerKept == (noticed /\ Stale /\ ~quit) => (trig \/ (loop = "asking" /\ Same(seen, layout)))
 \* the window (must be reachable): a trigger raised while a refresh that has seen an older layout is in flight
-W_TriggerDuringStaleRefresh == loop = "asking" /\ seen # layout /\ trig /\ noticed
+W_TriggerDuringStaleRefresh == loop = "asking" /\ ~Same(seen, layout) /\ trig /\ noticed
 NoWindow == ~W_TriggerDuringStaleRefresh
+\* the window (must be reachable under REPLICA / BOTH): only the replica assignment of the table is stale
+W_ReplicaStale == table[1] = layout[1] /\ table[2] # layout[2] /\ Stale
+NoReplicaStale == ~W_ReplicaStale
 =============================================================================
